@@ -652,6 +652,9 @@ pub(crate) mod repr {
     impl<'a> TypedReprRef<'a> {
         pub(super) const fn is_multiple_of_dword(self, divisor: DoubleWord) -> bool {
             use crate::primitive::extend_word;
+            if divisor == 0 {
+                panic_divide_by_0()
+            }
             if let Some(w) = shrink_dword(divisor) {
                 match self {
                     TypedReprRef::RefSmall(dword) => dword % extend_word(w) == 0,
